@@ -3,6 +3,7 @@ import GrmVerif.Model.Canon
 import GrmVerif.Lemmas.PagerGc
 import GrmVerif.Lemmas.PagerWeak
 import GrmVerif.Lemmas.PagerInvB
+import GrmVerif.Lemmas.PagerTotal
 import GrmVerif.Lemmas.PagerCert
 /-!
 # C02 — state minimisation never costs an LR(1) grammar its determinism
@@ -413,6 +414,57 @@ theorem pager_output_cert_graph_clauses (G : Grammar) (hwf : G.wf = true) (N : N
       obtain ⟨j, hj, e1', e2'⟩ := (hcl.2.1 p' d').mpr hc
       exact ⟨j, hj, by rw [e1', e2']; simpa [symAt, Closure.symAfter] using hsym⟩
 
+/-- **The modelled `pager_stategraph` never panics, whatever the hash-map iteration orders, as long as
+`StorageT` is not exhausted.** For a well-formed grammar, exact nullable/FIRST oracles and ANY list of
+orders (well-formed or not, too short or too long): if `maxStates` (= `StorageT::max_value()`) exceeds
+`1 +` the total number of keys the orders make the loop `for &(pidx, dot) in cl_state.items.keys()` visit
+(each visit creates at most one state, so this bounds the number of states ever created; for `u32` it
+means fewer than 2^32 - 2 key visits in the whole run), the model does not answer `panic`. Since the model
+answers `panic` for every index out of range, every `unwrap()` of `None`, the `len - 1` underflow in
+`weakly_compatible`, a missing key in `weakly_merge`/`vob_intersect`, the explicit `panic!` of the
+`StorageT` guard and `StateGraph::new`'s `assert!`, this says that under the hypothesis:
+`closed_states.iter().position(Option::is_none).unwrap()` finds an entry whenever `todo > 0` (`todo` IS the
+number of `None` entries); `core_states[state_i]`, `edges[state_i]`, `closed_states[k]`, `core_states[k]`,
+`cnd_rule_weaklies[r]`, `cnd_token_weaklies[t]`, `seen_rules[r]`, `seen_tokens[t]`, `prod[dot]` are in range;
+`close` and `goto` do not panic; no core state is empty; a weakly compatible candidate has the keys
+`weakly_merge` looks up; after the loop every `closed_states` entry is `Some`; `gc`'s `offsets[v]` is in
+range; and the final state count fits. Without the hypothesis the only way to `panic` that is left is the
+documented `StorageT` one (see the example below, `maxStates = 3`). The invariant is `PagerImpl.InvT`
+(`Lemmas/PagerTotal.lean`) on top of `InvA`. -/
+theorem pager_never_panics (G : Grammar) (hwf : G.wf = true) (N : Nat → Bool) (F : Nat × Nat → Bool)
+    (hN : ∀ r, N r = true ↔ Spec.NullableR G r) (hF : ∀ r t, F (r, t) = true ↔ Spec.FirstP G r t)
+    (maxStates : Nat) (orders : List Order)
+    (hmax : 1 + (orders.map (fun o => o.closedKeys.length)).sum < maxStates) :
+    pager G N F maxStates orders ≠ .panic := by
+  intro h
+  rcases pager_total hwf hN hF orders (by rw [budget_eq]; exact hmax) with ⟨h1, _⟩ | ⟨h1, _⟩ | ⟨_, out, _, h1⟩ <;>
+    (rw [h1] at h; cases h)
+
+/-- **The three outcomes of the modelled `pager_stategraph`, and where they come from.** Under the
+hypotheses of `pager_never_panics`, for any orders exactly one of these holds. Write `Steps os st st'` for
+"the main loop performs one normal iteration per element of `os` (with `todo > 0` before each) and gets from
+`st` to `st'`".
+* `badOrder`: the loop ran normally through a prefix `pre` of the orders, `todo` was still positive, and the
+  next order `o` was refused (`BadOrderAt`): `o.coreKeys` is not an enumeration of the keys of the core state
+  picked next, or `o.closedKeys` is not an enumeration of the keys of its closure. Nothing else answers
+  `badOrder`.
+* `fuelOut`: the loop ran normally through ALL the orders and `todo` is still positive: the list of orders
+  was too short. Nothing else answers `fuelOut`: `close` and `gc` never run out of the fuel the model gives
+  them.
+* the main loop ended normally (`todo = 0`), and then so does the whole function: the final `unwrap`s, `gc`
+  and the `StorageT` checks all pass.
+(Termination — that some list of orders leads to the third case — is not part of this statement.) -/
+theorem pager_outcomes (G : Grammar) (hwf : G.wf = true) (N : Nat → Bool) (F : Nat × Nat → Bool)
+    (hN : ∀ r, N r = true ↔ Spec.NullableR G r) (hF : ∀ r t, F (r, t) = true ↔ Spec.FirstP G r t)
+    (maxStates : Nat) (orders : List Order)
+    (hmax : 1 + (orders.map (fun o => o.closedKeys.length)).sum < maxStates) :
+    (pager G N F maxStates orders = .badOrder ∧ ∃ pre o post st', orders = pre ++ o :: post ∧
+      Steps G N F maxStates pre (initSt G) st' ∧ st'.todo ≠ 0 ∧ BadOrderAt G N F o st') ∨
+    (pager G N F maxStates orders = .fuelOut ∧
+      ∃ st', Steps G N F maxStates orders (initSt G) st' ∧ st'.todo ≠ 0) ∨
+    (∃ r out, mainLoop G N F maxStates orders (initSt G) = .ok r ∧ pager G N F maxStates orders = .ok out) :=
+  pager_total hwf hN hF orders (by rw [budget_eq]; exact hmax)
+
 /-! ### non-vacuity (tests, evaluated by `decide`) -/
 
 /-- `^ → R0; R0 → R1; R1 → R4 R4; R4 → t0` (tokens `t0 $`, rules `^ R0 R1 R4`) -/
@@ -445,6 +497,19 @@ example : (match pager exMerge (fun _ => false) (fun x => x.2 == 0) 1000 [⟨[(0
 /-- too few orders: the loop is cut off -/
 example : (match pager exMerge (fun _ => false) (fun x => x.2 == 0) 1000 (exMergeOrders.take 3) with
     | .fuelOut => true
+    | _ => false) = true := by decide
+
+/-- `pager_never_panics` is not vacuous: the run above satisfies its `maxStates` hypothesis (11 key
+visits, `maxStates = 1000`) and ends normally -/
+example : 1 + (exMergeOrders.map (fun o => o.closedKeys.length)).sum < 1000 := by decide
+example : (match exMergeRun with
+    | .ok _ => true
+    | _ => false) = true := by decide
+
+/-- the hypothesis is needed: with `StorageT::max_value() = 3` the same run hits the documented `panic!`
+of the `StorageT` guard -/
+example : (match pager exMerge (fun _ => false) (fun x => x.2 == 0) 3 exMergeOrders with
+    | .panic => true
     | _ => false) = true := by decide
 
 /-- `gc` on four states whose second state is unreachable: it is dropped, the edges to states 2 and 3 are
